@@ -33,6 +33,7 @@ SUBJ = {
  "F38": "a custom message of only blanks or separators",
  "F39": "the source excerpt of the console reporter depended on the order",
  "F47": "parse_int() silently saturated floats",
+ "F46": "`test --dir` ran a test file against the wrong rules file",
  "F31": "`test` listed the rules of a test case in a different order",
 }
 log = subprocess.run(["git", "-C", "/repo", "log", "--format=%h %s"], capture_output=True, text=True).stdout.splitlines()
